@@ -10,6 +10,8 @@
 #include <memory>
 #include <set>
 #include <vector>
+#include <algorithm>
+#include <sys/mman.h>
 
 using rt::Elem;
 using rt::LifeRegistry;
@@ -20,7 +22,7 @@ namespace {
 struct Cover {
     std::map<std::string, uint64_t> opCount;
     std::map<std::string, uint64_t> lengths;   // buckets of lengths at which arrays were constructed
-    uint64_t histories = 0, ops = 0, nontrivialCases = 0, compared = 0, zeroLength = 0;
+    uint64_t histories = 0, ops = 0, nontrivialCases = 0, compared = 0, zeroLength = 0, hugeArrays = 0, hugeSkipped = 0;
     std::vector<uint64_t> fps;
     std::vector<std::string> samples;
 } C;
@@ -403,6 +405,73 @@ void runCase(uint64_t seed, int steps) {
 
 } // namespace
 
+
+// ------------------------------------------------------------------ lengths beyond 2^31 and 2^32 elements
+// "for every length": an arithmetic Array of 2^31+k or 2^32+k elements (about 2-4 GiB) goes through pointer+length
+// construction, copy construction, copy assignment, move, growing and shrinking resize and the fill constructor; marker
+// elements on both sides of 2^31 and 2^32 and at the very end must arrive, and copies must be independent.
+template<class T>
+void runHugeCase(uint64_t c, size_t n, const char *tname) {
+    using Arr = tulz::Array<T>;
+    char d[200];
+    snprintf(d, sizeof d, "Array<%s> of %zu elements (%.1f GiB)", tname, n, (double) (n * sizeof(T)) / (1ULL << 30));
+    gHist = d;
+    rt::crumb("%s", d);
+    T *src = (T *) mmap(nullptr, n * sizeof(T), PROT_READ | PROT_WRITE, MAP_PRIVATE | MAP_ANONYMOUS | MAP_NORESERVE, -1, 0);
+    if (src == MAP_FAILED) { ++C.hugeSkipped; return; }   // not enough address space or memory here: nothing to judge
+    std::vector<size_t> marks;
+    for (size_t base : {(size_t) 0, (size_t) 1 << 16, (size_t) 1 << 31, (size_t) 1 << 32})
+        for (long off : {-2L, -1L, 0L, 1L, 4219L})
+            if ((base || off >= 0) && base + (size_t) off < n) marks.push_back(base + (size_t) off);
+    marks.push_back(n - 1);
+    marks.push_back(n / 2 + 12345);
+    auto val = [](size_t p) { return (T) ((rt::mix(p, 0x5eed) & 0x7f) | 1); };
+    for (size_t p : marks) src[p] = val(p);
+    auto check = [&](const Arr &a, size_t size, const char *what) {
+        if (gCaseFailed) return;
+        if (a.size() != size) return fail("model-mismatch", what, std::string(d) + ": size() = " + std::to_string(a.size()) + " after " + what + ", expected " + std::to_string(size));
+        for (size_t p : marks) {
+            if (p >= size) continue;
+            if (a[p] != val(p)) return fail("model-mismatch", what, std::string(d) + ": element [" + std::to_string(p) + "] = " + std::to_string((long) a[p]) + " after " + what + ", expected " + std::to_string((long) val(p)));
+            if (p + 7 < size && std::find(marks.begin(), marks.end(), p + 7) == marks.end() && a[p + 7] != 0) return fail("model-mismatch", what, std::string(d) + ": element [" + std::to_string(p + 7) + "] is not 0 after " + what);
+        }
+        ++C.compared;
+    };
+    {
+        Arr a(src, n);
+        check(a, n, "pointer+length");
+        munmap(src, n * sizeof(T));
+        {
+            Arr b(a);
+            check(b, n, "copy-construct");
+            if (!gCaseFailed) { b[n - 1] = 0; b[0] = 0; check(a, n, "write-to-copy"); }
+        }
+        if (!gCaseFailed) {
+            Arr e(3);
+            e = a;
+            check(e, n, "copy-assign");
+            if (!gCaseFailed) {
+                Arr m(std::move(e));
+                check(m, n, "move-construct");
+                if (!gCaseFailed && e.size() != 0) fail("model-mismatch", "move-construct", std::string(d) + ": the moved-from array still reports " + std::to_string(e.size()) + " elements");
+            }
+        }
+        if (!gCaseFailed) { a.resize(n + 7); check(a, n + 7, "resize-grow"); }
+        size_t cut = n > ((size_t) 1 << 32) ? ((size_t) 1 << 32) + 1 : ((size_t) 1 << 31) + 1;
+        if (!gCaseFailed) { a.resize(cut); check(a, cut, "resize-shrink"); }
+    }
+    if (!gCaseFailed && sizeof(T) == 1) {
+        T v = (T) 0x6b;
+        Arr f(n, v);
+        if (f.size() != n) fail("model-mismatch", "fill-construct", std::string(d) + ": size() wrong after the fill constructor");
+        for (size_t p : marks) if (!gCaseFailed && f[p] != v) fail("model-mismatch", "fill-construct", std::string(d) + ": element [" + std::to_string(p) + "] is not the fill value");
+    }
+    ++C.hugeArrays;
+    ++C.histories;
+    ++C.lengths[">2^31"];
+    if (!gCaseFailed) { ++C.nontrivialCases; rt::Hash h; h.add(n); h.add(sizeof(T)); C.fps.push_back(h.get()); }
+}
+
 int main(int argc, char **argv) {
     rt::init(argc, argv);
     LifeRegistry::get().prop = "C14";
@@ -422,6 +491,13 @@ int main(int argc, char **argv) {
         gHist.clear();
         gCaseFailed = false;
         LifeRegistry::get().reset();
+        if (rt::optStr("mode", "") == "huge") {
+            size_t k = 4219 + (size_t) rng.below(100000);
+            if (c % 3 == 0) runHugeCase<unsigned char>(c, ((size_t) 1 << 32) + k, "unsigned char");
+            else if (c % 3 == 1) runHugeCase<uint16_t>(c, ((size_t) 1 << 31) + k, "uint16_t");
+            else runHugeCase<unsigned char>(c, ((size_t) 1 << 31) + k, "unsigned char");
+            continue;
+        }
         const std::string &t = tl[rng.below(tl.size())];
         int steps = (int) (rng.chance(300) ? rng.range(1, 10) : rng.range(8, maxSteps));
         uint64_t s = rng.next();
@@ -437,7 +513,7 @@ int main(int argc, char **argv) {
     rt::dumpFingerprints(C.fps);
     auto &R = LifeRegistry::get();
     rt::finish(rt::Json().kv("engine", "h_array").kv("histories", C.histories).kv("ops", C.ops)
-                   .kv("nontrivialCases", C.nontrivialCases).kv("stateComparisons", C.compared).kv("zeroLength", C.zeroLength)
+                   .kv("nontrivialCases", C.nontrivialCases).kv("stateComparisons", C.compared).kv("zeroLength", C.zeroLength).kv("arraysOver2G", C.hugeArrays).kv("hugeSkipped", C.hugeSkipped)
                    .kv("trackedCtors", R.ctor).kv("trackedDtors", R.dtor).kv("trackedMoves", R.moves)
                    .raw("opCount", rt::jsonCounts(C.opCount)).raw("lengths", rt::jsonCounts(C.lengths))
                    .raw("samples", rt::jsonArray(C.samples, false)));
